@@ -75,6 +75,20 @@ func toChanges(cs []docChange) []lsp.TextDocumentContentChangeEvent {
 	return out
 }
 
+// sameLines: the cached lines are the lines of content (terminators LF, CR LF, CR; none kept)
+func sameLines(lines []string, content string) bool {
+	want := strings.Split(strings.ReplaceAll(strings.ReplaceAll(content, "\r\n", "\n"), "\r", "\n"), "\n")
+	if len(want) != len(lines) {
+		return false
+	}
+	for i := range want {
+		if want[i] != lines[i] {
+			return false
+		}
+	}
+	return true
+}
+
 func runDocHistory(ops []docOp) []docStep {
 	dm := lsp.NewDocumentManager()
 	var steps []docStep
@@ -98,7 +112,7 @@ func runDocHistory(ops []docOp) []docStep {
 		if d, ok := dm.Get(o.URI); ok {
 			st.Present, st.Version, st.Hex = true, d.Version, hx(d.Content)
 			// the cached line split must be the split of the content
-			if strings.Join(d.Lines, "\n") != d.Content {
+			if !sameLines(d.Lines, d.Content) {
 				st.Panic = "lines cache out of sync with content"
 			}
 		}
@@ -157,10 +171,10 @@ type serveCase struct {
 
 type serveResult struct {
 	Snapshots []lspSnapshot `json:"snapshots"`
-	Panic     string     `json:"panic,omitempty"`
-	Returned  bool       `json:"returned"`
-	Err       string     `json:"err,omitempty"`
-	Consumed  int        `json:"consumed"` // frames requested by the server
+	Panic     string        `json:"panic,omitempty"`
+	Returned  bool          `json:"returned"`
+	Err       string        `json:"err,omitempty"`
+	Consumed  int           `json:"consumed"` // frames requested by the server
 }
 
 func runServe(c serveCase) serveResult {
@@ -216,26 +230,36 @@ func runServe(c serveCase) serveResult {
 // start) every reasonable reading is accepted: the oracle returns the SET of acceptable results
 // (first element = the reading the Coq specification fixes: round down, empty range at start).
 
+// utf16LineSpans returns [start, end) of every line of u (end excludes the terminator).
+// A line ends at LF, at CR LF (one terminator) or at a CR not followed by LF.
+func utf16LineSpans(u []uint16) [][2]int {
+	var spans [][2]int
+	start := 0
+	for i := 0; i < len(u); i++ {
+		switch u[i] {
+		case '\n':
+			spans = append(spans, [2]int{start, i})
+			start = i + 1
+		case '\r':
+			spans = append(spans, [2]int{start, i})
+			if i+1 < len(u) && u[i+1] == '\n' {
+				i++
+			}
+			start = i + 1
+		}
+	}
+	return append(spans, [2]int{start, len(u)})
+}
+
 func utf16Positions(u []uint16, line, char int) []int {
 	if line < 0 {
 		return []int{0}
 	}
-	start, l := 0, 0
-	for l < line {
-		i := start
-		for i < len(u) && u[i] != '\n' {
-			i++
-		}
-		if i >= len(u) {
-			return []int{len(u)} // past the last line: end of document
-		}
-		start = i + 1
-		l++
+	spans := utf16LineSpans(u)
+	if line >= len(spans) {
+		return []int{len(u)} // past the last line: end of document
 	}
-	end := start
-	for end < len(u) && u[end] != '\n' {
-		end++
-	}
+	start, end := spans[line][0], spans[line][1]
 	c := char
 	if c < 0 {
 		c = 0
@@ -244,7 +268,7 @@ func utf16Positions(u []uint16, line, char int) []int {
 		c = end - start
 	}
 	idx := start + c
-	if idx > start && idx < end && utf16.IsSurrogate(rune(u[idx])) && u[idx] >= 0xDC00 && u[idx-1] >= 0xD800 && u[idx-1] < 0xDC00 {
+	if idx > start && idx < end && u[idx] >= 0xDC00 && u[idx] < 0xE000 && u[idx-1] >= 0xD800 && u[idx-1] < 0xDC00 {
 		return []int{idx - 1, idx + 1}
 	}
 	return []int{idx}
@@ -341,8 +365,6 @@ func allLines(alpha []string, maxChars int) []string {
 	return res
 }
 
-func unitsOf(s string) int { return len(utf16.Encode([]rune(s))) }
-
 func runSweep(cfg sweepCfg) lspSweepOut {
 	var alpha, texts []string
 	for _, a := range cfg.Alphabet {
@@ -397,11 +419,12 @@ func runSweep(cfg sweepCfg) lspSweepOut {
 			for di := (cfg.Seed % cfg.Stride) + w*cfg.Stride; di < total; di += workers * cfg.Stride {
 				doc := docAt(di)
 				loc.Docs++
-				dl := strings.Split(doc, "\n")
+				spans := utf16LineSpans(utf16.Encode([]rune(doc)))
+				dl := spans // only its length is used below
 				maxU := 0
-				for _, l := range dl {
-					if u := unitsOf(l); u > maxU {
-						maxU = u
+				for _, sp := range spans {
+					if sp[1]-sp[0] > maxU {
+						maxU = sp[1] - sp[0]
 					}
 				}
 				for sl := -1; sl <= len(dl)-1+cfg.Pad; sl++ {
